@@ -164,6 +164,21 @@ def body_content_range(I, X, known_length=True):
     return ok, {"header": h}
 
 
+def body_content_range_unsatisfied(I, X):
+    """the unsatisfied form 'bytes */length' incl. length 0"""
+    from werkzeug import http
+    from werkzeug.datastructures import ContentRange
+
+    L = X.int("L", 0, 100000)
+    cr = I.call(ContentRange, ("bytes", None, None, L))
+    h = I.call(cr.to_header, ())
+    back = I.call(http.parse_content_range_header, (h,))
+    ok = back is not None
+    if ok:
+        ok = pand(back.units == "bytes", back.start is None, back.stop is None, back.length is not None and peq(back.length, L))
+    return ok, {"header": h}
+
+
 def body_age(I, X):
     from werkzeug import http
 
@@ -306,7 +321,11 @@ def obligations(tier, seed):
         add(f"range[{kind}]", "body_range", {"kind": kind}, kind == "first-last")
     for kl in (True, False):
         add(f"content-range[length={kl}]", "body_content_range", {"known_length": kl}, kl)
+    add("content-range[unsatisfied]", "body_content_range_unsatisfied", {}, True)
     add("age", "body_age", {}, True)
+    if quick:
+        add("options[n=5]", "body_options", {"n": 5})
+        add("dict[n=5]", "body_dict", {"n": 5, "with_none": False})
     for which in ("list", "set", "range"):
         for n in (range(0, 5) if quick else range(0, 7)):
             add(f"normal-form[{which},n={n}]", "body_normal_form", {"which": which, "n": n}, n == 3, 900)
